@@ -909,6 +909,7 @@ pub fn execute(case: &Case, record_seed: Option<u64>) -> Outcome {
         "call" => YAMLDecodingTrap::Call(sim_trap),
         _ => YAMLDecodingTrap::Strict,
     };
+    crate::alloc::tl_start();
     let g = guarded(|| {
         let reader = SimReader::new(bytes.clone(), allow_hard, allow_early);
         let mut dec = YamlDecoder::read(reader);
@@ -939,6 +940,7 @@ pub fn execute(case: &Case, record_seed: Option<u64>) -> Outcome {
         }
         first
     });
+    let (_, mem_peak) = crate::alloc::tl_stop();
     let decode_ticks = saphyr::verif_hooks::decode_ticks();
     saphyr::verif_hooks::set_decode_budget(u64::MAX);
     let ticks = clock::ticks() + decode_ticks;
@@ -1048,7 +1050,17 @@ pub fn execute(case: &Case, record_seed: Option<u64>) -> Outcome {
     if out.summary.is_empty() {
         out.summary = format!("{cfg}: {len} bytes, trap {} -> violation", case.trap);
     }
+    // the memory clock: decoded text, loaded documents and their rendering all grow like the
+    // stored bytes (a callback may push 64 bytes per malformed byte)
+    out.mem_peak = mem_peak;
+    out.mem_budget = 65_536 + (len + 16) * 8192;
     out.violation = violation;
+    if out.violation.is_none() && mem_peak > out.mem_budget {
+        out.violation = Some((
+            "MEMORY(peak-budget)".into(),
+            format!("{mem_peak} bytes live at the peak while decoding {len} stored bytes with trap {}, budget {}", case.trap, out.mem_budget),
+        ));
+    }
     out.fingerprint = fp.0;
     out.nontrivial = len >= 4 || clock::run_faults() >= 1;
     out.tape = clock::end().rec;
